@@ -20,6 +20,9 @@ pub struct Scenario {
     /// per device terminal: is an external terminal connected to it?
     pub linked: Vec<bool>,
     pub rounds: Vec<Vec<Feed>>,
+    /// all timestamps are offset by this (negative, near the ends of the i64 range, ...)
+    #[serde(default)]
+    pub time_base: i64,
 }
 static HEADROOM: Headroom = Headroom::new();
 
@@ -65,7 +68,7 @@ pub fn check(s: &Scenario) -> CheckResult {
     let mut conflict_round = false;
     let mut sig: Vec<u64> = vec![s.dev.code() as u64];
     for (ri, round) in s.rounds.iter().enumerate() {
-        let base = (ri as i64 + 1) * 1000;
+        let base = s.time_base + (ri as i64 + 1) * 1000;
         for i in 0..n {
             let f = round.get(i).copied().unwrap_or(Feed { own: None, partner: None });
             if let Some((v, dt)) = f.own {
@@ -242,6 +245,20 @@ fn feed() -> BoxedStrategy<Feed> {
     let w = || proptest::option::weighted(0.45, (triple(), any::<u8>()));
     (w(), w()).prop_map(|(own, partner)| Feed { own, partner }).boxed()
 }
+/// device specifications inside the quantified domain
+pub fn dev_valid(d: &DevSpec) -> bool {
+    match d {
+        DevSpec::Invert => true,
+        DevSpec::Gear(r) => r.is_finite() && (1.0e-2..=1.0e2).contains(&r.abs()),
+        DevSpec::GearTeeth(t) => (2..=6).contains(&t.len()) && t.iter().all(|x| (1.0..=200.0).contains(x) && x.fract() == 0.0),
+        DevSpec::Axle(n) => *n <= 6,
+        DevSpec::Diff(m) => *m < 4,
+    }
+}
+/// offset of all timestamps of a device scenario: zero, negative, straddling zero, both ends of the i64 range
+pub fn time_base() -> BoxedStrategy<i64> {
+    prop_oneof![4 => Just(0i64), 2 => -20_000i64..0, 2 => any::<i64>().prop_map(|t| t.clamp(i64::MIN, i64::MAX - 1_000_000)), 1 => Just(i64::MIN), 1 => Just(i64::MIN + 1), 1 => Just(i64::MAX - 1_000_000)].boxed()
+}
 pub fn ratio_strategy() -> BoxedStrategy<f32> {
     prop_oneof![
         2 => proptest::sample::select(vec![1.0f32, -1.0, 2.0, -2.0, 0.5, -0.5, 3.0, -0.25]),
@@ -269,9 +286,9 @@ impl Property for C08 {
         dev_strategy()
             .prop_flat_map(|dev| {
                 let n = dev.terminals();
-                (Just(dev), proptest::collection::vec(proptest::bool::weighted(0.6), n..=n), proptest::collection::vec(proptest::collection::vec(feed(), n..=n), 1..=8))
+                (Just(dev), proptest::collection::vec(proptest::bool::weighted(0.6), n..=n), proptest::collection::vec(proptest::collection::vec(feed(), n..=n), 1..=8), time_base())
             })
-            .prop_map(|(dev, linked, rounds)| Scenario { dev, linked, rounds })
+            .prop_map(|(dev, linked, rounds, time_base)| Scenario { dev, linked, rounds, time_base })
             .boxed()
     }
     fn cases(tier: Tier) -> u32 {
@@ -294,7 +311,9 @@ impl Property for C08 {
                         Feed { own: if code & 1 != 0 { Some((v, (i * 7) as u8)) } else { None }, partner: if code & 2 != 0 { Some((w, (20 - i * 3) as u8)) } else { None } }
                     })
                     .collect();
-                sink(Scenario { dev: dev.clone(), linked: vec![true; k], rounds: vec![round.clone(), round] });
+                sink(Scenario { dev: dev.clone(), linked: vec![true; k], rounds: vec![round.clone(), round.clone()], time_base: 0 });
+                sink(Scenario { dev: dev.clone(), linked: vec![true; k], rounds: vec![round.clone(), round], time_base: -5_000 });
+                n += 1;
                 n += 1;
             }
         }
@@ -302,6 +321,10 @@ impl Property for C08 {
     }
     fn check(s: &Scenario) -> CheckResult {
         check(s)
+    }
+    fn valid(s: &Scenario) -> bool {
+        let n = s.dev.terminals();
+        s.time_base <= i64::MAX - 1_000_000 && dev_valid(&s.dev) && s.linked.len() == n && (1..=8).contains(&s.rounds.len()) && s.rounds.iter().all(|r| r.len() == n && r.iter().all(|f| f.own.iter().chain(f.partner.iter()).all(|(v, _)| v.iter().all(|x| dom::wide(*x)))))
     }
     fn extra_coverage() -> std::collections::BTreeMap<String, serde_json::Value> {
         let mut m = std::collections::BTreeMap::new();
